@@ -203,7 +203,7 @@ def build(P):
         r = rng_for(seed, "C14")
         depth = 6 if tier == "thorough" else 4
         # alphabet on one file: OPEN, CLOSE, SEEK k, PUT v, GET, RESTART(=new process: split into two cases joined through the file; emulated by CLOSE+OPEN in-process plus model file compare)
-        payloads = ['"a"', '"x" & CHR(10) & "y"', '"#h"', '""', 'CHR(10) & "#"']
+        payloads = ['"a"', '"x" & CHR(10) & "y"', '"#h"', '""', 'CHR(10) & "#"', '"end" & CHR(10)', '"" & CHR(10)', '"a" & CHR(10) & CHR(10)', '"#" & CHR(10) & "#" & CHR(10)']
         def history_prog(ops, two=False):
             L = ["DECLARE v, w : STRING", "v <- \"init\""]
             for op in ops:
